@@ -174,7 +174,7 @@ def run(res):
     if not ok:
         raise Broken("harness build failed: " + out[-1500:])
     consts = comp.read_consts()
-    n_small, n_cap = (60, 20) if res.tier == "quick" else (1500, 300)
+    n_small, n_cap = (60, 20) if res.tier == "quick" else (900, 100)
     cases = []
     corpus = load_corpus()
     cases += corpus
